@@ -55,7 +55,7 @@ Rendering
 
 C++ typing assumed (read from the sources where possible)
   * `offset_t`, `block_length_t`: read from `using X = std::uintN_t;` in sbepp.hpp;
-    `std::size_t`: 64-bit unsigned.  Values of these types are `Nat` below their
+    `std::size_t`: 64-bit unsigned; `std::numeric_limits<U>::max()` = 2^N - 1 of that width.  Values of these types are `Nat` below their
     bound; `+`, `+=`, `*`, `-` wrap modulo 2^N of the converted operand type
     (`wrapN`); assignments between equal widths do not convert.
   * `std::optional<U>`: `Option Nat`; `if(o)` / `o.has_value()` test engagement,
@@ -242,7 +242,8 @@ class BodyParser(Cursor):
             if k != 'id':
                 raise ExtractError('identifier expected, got %r' % v)
             parts.append(v)
-            if self.at('<') and parts[-1] in ('optional', 'vector', 'get', 'get_if', 'is_same_v', 'holds_alternative'):
+            if self.at('<') and parts[-1] in ('optional', 'vector', 'get', 'get_if', 'is_same_v', 'holds_alternative',
+                                               'numeric_limits'):
                 parts[-1] += '<' + spell(self.skip_balanced('<', '>')) + '>'
             if self.at('::') and self.peek(1)[0] == 'id':
                 self.next()
@@ -764,6 +765,8 @@ class Lower:
         k = ir[0]
         if k == 'num':
             return str(ir[1])
+        if k == 'tnum':
+            return '%du%d' % (ir[1], ir[2])
         if k == 'bool':
             return 'true' if ir[1] else 'false'
         if k == 'str':
@@ -811,6 +814,8 @@ class Lower:
         k = ir[0]
         if k == 'num':
             return ('int',)
+        if k == 'tnum':
+            return ('uint', ir[2])
         if k == 'bool':
             return ('bool',)
         if k == 'enumc':
@@ -961,6 +966,12 @@ class Lower:
             name = self.callee_name(fn)
             if name is None:
                 raise ExtractError('call of a computed function')
+            m = re.fullmatch(r'(?:::)?(?:std::)?numeric_limits<(.+)>::(max|min)', name)
+            if m and not e[2]:
+                t = self.T.of_spelling(m.group(1))
+                if t[0] != 'uint':
+                    raise ExtractError('numeric_limits of %s' % m.group(1))
+                return ('val', ('tnum', 2 ** t[1] - 1 if m.group(2) == 'max' else 0, t[1]))
             if name in self.lean_names:
                 raise ExtractError('value of the translated function %s is used' % name)
             return self.oracle(name, [self.lower(a) for a in e[2]], expect)
@@ -1517,7 +1528,7 @@ class Render:
 
     def expr(self, ir, st):
         k = ir[0]
-        if k == 'num':
+        if k in ('num', 'tnum'):
             return str(ir[1])
         if k == 'bool':
             return 'true' if ir[1] else 'false'
